@@ -1076,8 +1076,10 @@ func (e *Enc) resolveType(s string) types.Type {
 	return nil
 }
 
-// assumeAxioms adds contract-level axioms.
+// assumeAxioms evaluates contract-level axioms; each is included in a script only when one of the
+// spec functions it mentions is used there (see script()).
 func (e *Enc) assumeAxioms(st *State) {
+	e.axioms = nil
 	for _, ax := range e.w.CS.Axioms {
 		ctx := e.ctxEntry(st)
 		ctx.useParams = false
@@ -1092,10 +1094,22 @@ func (e *Enc) assumeAxioms(st *State) {
 			}()
 			n := len(e.asserts)
 			t := ctx.evalBool(ax.C)
+			// facts produced while evaluating (string constants) stay global; the axiom itself is conditional
 			_ = n
-			e.assume(t)
+			var syms []string
+			for name := range e.w.CS.SpecFns {
+				if strings.Contains(ax.C.Src, name+"(") {
+					syms = append(syms, name)
+				}
+			}
+			e.axioms = append(e.axioms, condAxiom{term: t, syms: syms})
 		}()
 	}
+}
+
+type condAxiom struct {
+	term string
+	syms []string
 }
 
 func bvTypeOfSort(s string) types.Type {
